@@ -1080,6 +1080,9 @@ func gen(r *hlib.Rand, id int) Spec {
 		nm = 2
 	}
 	for i := 0; i < nm; i++ {
+		if len(pj.StorageProof) == 0 || pj.StorageProof[0] == nil {
+			break // a previous mutation removed the storage proof; nothing left to vary
+		}
 		m := r.Intn(40)
 		switch m {
 		case 0, 1: // truncated / corrupted account proof
